@@ -15,7 +15,7 @@ RULE = (
     "distinct by (program hash, cut position, cut kind)"
 )
 ASSUMPTIONS = ["persist() runs on the synchronous scheduler", "divisions are compared for persist, legacy and delayed-with-divisions cuts only"]
-BUDGET_S = {"quick": 170, "thorough": 3000}
+BUDGET_S = {"quick": 170, "thorough": 900}
 
 PROFILE_Q = gen.Profile("cuts", max_steps=6, max_rows=10, weights={"partitions": 1.5, "head": 2, "cols": 4, "col": 3, "filter_pred": 4, "reduce": 2.5, "index_of": 1, "binop_misaligned": 1.5})
 PROFILE_T = gen.Profile("cuts", max_steps=10, max_rows=16, n_tables=(1, 3), weights={"partitions": 1.5, "head": 2, "cols": 4, "col": 3, "filter_pred": 4, "reduce": 2.5, "index_of": 1})
